@@ -4,7 +4,7 @@
    each return hands out the buffer's storage or a copy, whether the Put is deferred; the loader's fields and the
    fields reset() assigns. *)
 From Coq Require Import String List NArith Bool.
-From JS Require Import Model.Pools Gen.PoolSites Spec.TypeVocab Proofs.PoolProofs.
+From JS Require Import Model.Pools Gen.PoolSites Spec.TypeVocab Proofs.PoolProofs Proofs.PoolBalance.
 Import ListNotations.
 
 (* for every history: if every site returns copies, every value returned so far reads the same after any
